@@ -328,7 +328,6 @@ func (p *Proxy) handleCONNECT(r responder.Responder, proxyReq *http.Request) err
 	// Create a buffered reader for the client connection. This is required to
 	// use http package functions with this connection.
 	connReader := bufio.NewReader(tlsConn)
-	responder := responder.NewRawHTTPResponder(tlsConn)
 
 	slog.Debug("Entering request loop for CONNECT tunnel", "host", proxyReq.Host)
 	for {
@@ -342,6 +341,10 @@ func (p *Proxy) handleCONNECT(r responder.Responder, proxyReq *http.Request) err
 			}
 			break
 		}
+
+		// Every exchange gets its own responder: the responder owns the response under construction
+		// (headers, Content-Length), which must not carry over into the next exchange on the tunnel.
+		responder := responder.NewRawHTTPResponder(tlsConn)
 
 		req.Close = true
 		if err := p.handleHTTP(responder, req); err != nil {
